@@ -797,6 +797,7 @@ def _helpers(chk, ctx) -> None:
     got = []
     saw_builtin = False
     ok_exact = True
+    n_exact = 0
     for p in ctx.paths(dv):
         if not p.returned:
             continue
@@ -817,7 +818,12 @@ def _helpers(chk, ctx) -> None:
             q, rem = tup[1]
             total = T.add(T.mul(q, ('name', 'divisor')), rem)
             got.append(T.show(total))
-            ok = total == ('name', 'dividend') and q == T.spec('dividend / divisor')
+            n_exact += 1
+            if not (total == ('name', 'dividend') and q == T.spec('dividend / divisor')):
+                ok_exact = False          # every way out of the exact arm adds up, not just one of them
+        elif not (r[0] == 'mcall' and r[2] == 'divmod'):
+            ok_exact = False
+    ok = n_exact > 0
     chk.ob('C01.helpers', 'utilities.divmod', ok and saw_builtin and ok_exact, dv.loc,
            'quotient * divisor + remainder == dividend symbolically on the non-integral path; the integral path - integers and nothing else: '
            'Fraction, Decimal and float chips divide exactly - is builtins.divmod(dividend, divisor)',
